@@ -14,9 +14,9 @@ PID = "C20"
 
 
 def run(tier):
-    fam = [("full", ["ints", "bool", "float", "str", "char", "rec", "enum", "opt", "loops", "calls", "ret", "fstr", "hostopt", "evalsafe", "gconst", "kconst"], 2, 700, 5000, 2),
-           ("scalar", ["ints", "bool", "float", "char", "calls", "ret", "evalsafe", "gconst", "kconst"], 2, 600, 5000, 3),
-           ("hostopt", ["bool", "str", "opt", "hostopt", "calls", "evalsafe", "gconst", "kconst"], 2, 400, 4000, 3)]
+    fam = [("full", ["ints", "bool", "float", "str", "char", "rec", "enum", "opt", "loops", "calls", "ret", "fstr", "hostopt", "evalsafe", "gconst"], 2, 700, 5000, 2),
+           ("scalar", ["ints", "bool", "float", "char", "calls", "ret", "evalsafe", "gconst"], 2, 600, 5000, 3),
+           ("hostopt", ["bool", "str", "opt", "hostopt", "calls", "evalsafe", "gconst"], 2, 400, 4000, 3)]
     rc = semlib.run_sem_check(
         PID, tier, fam, want_eval=True,
         extra_cases=[("matrix", semlib.matrix_cases(tier))],
